@@ -147,12 +147,23 @@ func (g *cGen) section(name string, density int, pbad int) (map[component.ID]com
 		have[s] = c != nil
 		ts = append(ts, "("+vStr(s)+", "+t+")")
 	}
+	if m == nil && g.r.Bool() {
+		m = map[component.ID]component.Config{} // the section key written with an empty body
+	}
 	return m, vList(ts), have
 }
+
+// prefer: ids (e.g. the connectors) chosen with extra weight, so that every kind of resolving
+// reference occurs before and after every kind of mistake
+var cPrefer []string
 
 func (g *cGen) refs(defined []string, n int, pDangling int, pDup int) ([]component.ID, []string) {
 	var ids []component.ID
 	var ss []string
+	if n == 0 && g.r.Bool() {
+		// written as an explicit empty list: empty but not nil (what confmap's zero-slice hook yields)
+		ids = []component.ID{}
+	}
 	for i := 0; i < n; i++ {
 		var s string
 		switch {
@@ -160,10 +171,30 @@ func (g *cGen) refs(defined []string, n int, pDangling int, pDup int) ([]compone
 			s = ss[g.r.Intn(len(ss))]
 		case len(defined) == 0 || g.r.Intn(100) < pDangling:
 			s = cIDPool[g.r.Intn(len(cIDPool))]
+		case len(cPrefer) > 0 && g.r.Intn(100) < 40:
+			s = cPrefer[g.r.Intn(len(cPrefer))]
 		default:
 			s = defined[g.r.Intn(len(defined))]
 		}
 		ss = append(ss, s)
+	}
+	// one mistake planted at a random position of an otherwise generated list
+	if pDangling > 0 && len(ss) >= 2 && g.r.Intn(100) < 25 {
+		isDef := map[string]bool{}
+		for _, d := range defined {
+			isDef[d] = true
+		}
+		var undef []string
+		for _, c := range cIDPool {
+			if !isDef[c] {
+				undef = append(undef, c)
+			}
+		}
+		if len(undef) > 0 {
+			ss[g.r.Intn(len(ss))] = undef[g.r.Intn(len(undef))]
+		}
+	}
+	for _, s := range ss {
 		ids = append(ids, cID(s))
 	}
 	return ids, ss
@@ -414,7 +445,8 @@ func TestVerifC13Cfg(t *testing.T) {
 			}
 			pc := &pipelines.PipelineConfig{}
 			d := pdesc{id: pid, sig: id.Signal().String()}
-			nr, ne := 1+r.Intn(2), 1+r.Intn(2)
+			nr, ne := 1+r.Pick(4, 4, 2, 1), 1+r.Pick(4, 4, 2, 1)
+			cPrefer = cKeys(hc)
 			if r.Intn(100) < pDang/2 {
 				nr = 0
 			}
@@ -424,6 +456,15 @@ func TestVerifC13Cfg(t *testing.T) {
 			pc.Receivers, d.rs = g.refs(recvLike, nr, pDang, pDup)
 			pc.Processors, d.ps = g.refs(nonnil(hp), r.Pick(3, 3, 2, 1), pDang, pDup)
 			pc.Exporters, d.es = g.refs(expLike, ne, pDang, pDup)
+			cPrefer = nil
+			if pc.Receivers != nil && len(pc.Receivers) == 0 || pc.Exporters != nil && len(pc.Exporters) == 0 {
+				out.Stat("cfg.pipeline.empty-nonnil-list", 1)
+			}
+			for k, s := range d.rs {
+				if _, isConn := hc[s]; isConn && k+1 < len(d.rs) {
+					out.Stat("cfg.pipeline.ref-after-connector", 1)
+				}
+			}
 			if cfg.Service.Pipelines == nil {
 				cfg.Service.Pipelines = pipelines.Config{}
 			}
